@@ -362,3 +362,794 @@ Proof.
 Qed.
 
 End Bridge.
+
+(* ------------------------------------------------------------------ *)
+(** * The witness valuation used for completeness *)
+
+Definition wit (F : af) (n : nat) (range : bool) (t : list (option nat)) (S : list nat) : val :=
+  fun v =>
+    if v <=? n then memb (v - 1) S
+    else if range && (v <=? 2 * n) then in_rangeb F S (v - n - 1)
+    else existsb (fun b => match nth b t None with
+                           | Some d => (d =? v) && attacked_byb F S b
+                           | None => false
+                           end) (seq 0 n).
+
+Lemma wit_arg F n range t S a : a < n -> wit F n range t S (exp_var a) = memb a S.
+Proof.
+  intros Ha. unfold wit, exp_var.
+  replace (a + 1 <=? n) with true by (symmetry; apply Nat.leb_le; lia).
+  f_equal. lia.
+Qed.
+
+Lemma wit_range F n t S a : a < n -> wit F n true t S (exp_range n a) = in_rangeb F S a.
+Proof.
+  intros Ha. unfold wit, exp_range.
+  replace (n + a + 1 <=? n) with false by (symmetry; apply Nat.leb_gt; lia).
+  replace (n + a + 1 <=? 2 * n) with true by (symmetry; apply Nat.leb_le; lia).
+  cbn [andb]. f_equal. lia.
+Qed.
+
+Lemma wit_disj F n (range : bool) (t : list (option nat)) S b d :
+  length t = n ->
+  (forall b d, nth b t None = Some d -> (if range then 2 * n else n) < d) ->
+  (forall b b' d, nth b t None = Some d -> nth b' t None = Some d -> b = b') ->
+  nth b t None = Some d ->
+  wit F n range t S d = attacked_byb F S b.
+Proof.
+  intros Hlen Hlo Hinj Hb. pose proof (Hlo b d Hb) as Hd.
+  assert (Hbn : b < n).
+  { destruct (le_lt_dec n b) as [Hge|Hlt]; [|exact Hlt].
+    rewrite nth_overflow in Hb by lia. discriminate. }
+  unfold wit.
+  replace (d <=? n) with false by (symmetry; apply Nat.leb_gt; destruct range; lia).
+  replace (range && (d <=? 2 * n)) with false.
+  2:{ symmetry. destruct range; [|reflexivity]. cbn [andb]. apply Nat.leb_gt. lia. }
+  destruct (attacked_byb F S b) eqn:E.
+  - apply existsb_exists. exists b. split; [apply in_seq; lia|].
+    rewrite Hb, Nat.eqb_refl, E. reflexivity.
+  - apply existsb_false_forall. intros b' _.
+    destruct (nth b' t None) as [d'|] eqn:E'; [|reflexivity].
+    destruct (d' =? d) eqn:Ed; [|reflexivity]. apply Nat.eqb_eq in Ed. subst d'.
+    rewrite (Hinj b' b d E' Hb). rewrite E. reflexivity.
+Qed.
+
+Lemma wit_Hm F n range t S c :
+  c < n -> (wit F n range t S (exp_var c) = true <-> In c S).
+Proof. intros Hc. rewrite wit_arg by exact Hc. apply memb_spec. Qed.
+
+Lemma wit_range_iff F n t S i :
+  i < n -> (wit F n true t S (exp_range n i) = true <-> in_range F S i).
+Proof. intros Hi. rewrite wit_range by exact Hi. apply in_rangeb_spec. Qed.
+
+(* ------------------------------------------------------------------ *)
+(** * The hybrid state machine *)
+
+Lemma set_tbl_length i v t : length (set_tbl i v t) = length t.
+Proof.
+  revert i. induction t as [|x t IH]; intros i.
+  - destruct i; reflexivity.
+  - destruct i as [|i]; [reflexivity|].
+    change (set_tbl (S i) v (x :: t)) with (x :: set_tbl i v t).
+    cbn [length]. f_equal. apply IH.
+Qed.
+
+Lemma nth_set_tbl i v t j :
+  i < length t ->
+  nth j (set_tbl i v t) None = if j =? i then Some v else nth j t None.
+Proof.
+  revert i j. induction t as [|x t IH]; intros i j Hi; cbn [length] in Hi; [lia|].
+  destruct i as [|i].
+  - destruct j; reflexivity.
+  - change (set_tbl (S i) v (x :: t)) with (x :: set_tbl i v t).
+    destruct j as [|j]; [reflexivity|]. cbn [nth]. rewrite IH by lia. reflexivity.
+Qed.
+
+Section Hyb.
+Variable n : nat.
+Variable atk : nat -> list nat.
+Variable thr : nat.
+Variable start : nat.
+Hypothesis Hatk : forall a b, In b (atk a) -> b < n.
+
+Definition posv (v : nat) : Prop := 0 < v.
+
+Record Inv (s : hstate) : Prop := {
+  inv_len : length (tbl s) = n;
+  inv_start : 1 <= start <= next_free s;
+  inv_rng : forall b d, nth b (tbl s) None = Some d -> start <= d < next_free s;
+  inv_inj : forall b b' d, nth b (tbl s) None = Some d -> nth b' (tbl s) None = Some d -> b = b';
+  inv_lits : cnf_in posv (out s) }.
+
+Lemma disj_var_in d b : 0 < d -> cnf_in posv (disj_var_with atk exp_var d b).
+Proof.
+  intros Hd. unfold disj_var_with.
+  apply cnf_in_app; [|apply cnf_in_app].
+  - apply cnf_in_cons; [|apply cnf_in_nil].
+    apply cl_in_cons; [apply lit_in_znlit; unfold posv; auto|].
+    apply cl_in_cons; [apply lit_in_znlit; unfold posv; auto|apply cl_in_nil].
+  - apply cnf_in_map. intros c _.
+    apply cl_in_cons; [apply lit_in_zlit; unfold posv; auto|].
+    apply cl_in_cons; [apply lit_in_znlit; unfold posv; auto|apply cl_in_nil].
+  - apply cnf_in_cons; [|apply cnf_in_nil].
+    apply cl_in_cons; [apply lit_in_znlit; unfold posv; auto|].
+    apply cl_in_map. intros c _. apply lit_in_zlit; unfold posv; auto.
+Qed.
+
+Lemma create_inv s b : Inv s -> b < n -> Inv (create_disj_for atk s b).
+Proof.
+  intros HI Hb. unfold create_disj_for.
+  destruct (nth b (tbl s) None) as [d0|] eqn:E; [exact HI|].
+  destruct HI as [Hlen Hst Hrng Hinj Hlits]. constructor; cbn [tbl next_free out].
+  - now rewrite set_tbl_length.
+  - lia.
+  - intros b' d Hn. rewrite nth_set_tbl in Hn by lia. destruct (b' =? b) eqn:Eb.
+    + injection Hn as <-. lia.
+    + apply Hrng in Hn. lia.
+  - intros b1 b2 d H1 H2. rewrite nth_set_tbl in H1, H2 by lia.
+    destruct (b1 =? b) eqn:E1; destruct (b2 =? b) eqn:E2.
+    + apply Nat.eqb_eq in E1, E2. congruence.
+    + injection H1 as <-. apply Hrng in H2. lia.
+    + injection H2 as <-. apply Hrng in H1. lia.
+    + now apply (Hinj b1 b2 d).
+  - apply cnf_in_app; [exact Hlits|]. apply disj_var_in. lia.
+Qed.
+
+Lemma create_mono s b b' d :
+  Inv s -> b < n -> nth b' (tbl s) None = Some d ->
+  nth b' (tbl (create_disj_for atk s b)) None = Some d.
+Proof.
+  intros HI Hb H. unfold create_disj_for.
+  destruct (nth b (tbl s) None) as [d0|] eqn:E; [exact H|]. cbn [tbl].
+  rewrite nth_set_tbl by (rewrite (inv_len s HI); exact Hb).
+  destruct (b' =? b) eqn:Eb; [|exact H]. apply Nat.eqb_eq in Eb. subst. congruence.
+Qed.
+
+Lemma create_has s b :
+  Inv s -> b < n -> exists d, nth b (tbl (create_disj_for atk s b)) None = Some d.
+Proof.
+  intros HI Hb. unfold create_disj_for.
+  destruct (nth b (tbl s) None) as [d0|] eqn:E; [exists d0; exact E|]. cbn [tbl].
+  exists (next_free s). rewrite nth_set_tbl by (rewrite (inv_len s HI); exact Hb).
+  now rewrite Nat.eqb_refl.
+Qed.
+
+(* ----- semantics of the emitted clauses under a fixed valuation ----- *)
+Variable m : val.
+
+Definition dmean (t : list (option nat)) : Prop :=
+  forall b d, nth b t None = Some d -> disj_sem atk m d b.
+
+Definition Sem (s : hstate) (XS XC : Prop) : Prop :=
+  (vmodels m (out s) = true -> dmean (tbl s) /\ XS) /\
+  (dmean (tbl s) /\ XC -> vmodels m (out s) = true).
+
+Lemma Sem_weaken s (XS XC XS' XC' : Prop) :
+  Sem s XS XC -> (XS -> XS') -> (XC' -> XC) -> Sem s XS' XC'.
+Proof.
+  intros [HS HC] H1 H2. split.
+  - intros Hm. destruct (HS Hm) as [Hd HX]. split; [exact Hd|now apply H1].
+  - intros [Hd HX]. apply HC. split; [exact Hd|now apply H2].
+Qed.
+
+Lemma dmean_set t b d :
+  b < length t -> nth b t None = None ->
+  (dmean (set_tbl b d t) <-> dmean t /\ disj_sem atk m d b).
+Proof.
+  intros Hb Hnone. unfold dmean. split.
+  - intros H. split.
+    + intros b' d' Hn. apply H. rewrite nth_set_tbl by exact Hb.
+      destruct (b' =? b) eqn:Eb; [|exact Hn]. apply Nat.eqb_eq in Eb. subst. congruence.
+    + apply H. rewrite nth_set_tbl by exact Hb. now rewrite Nat.eqb_refl.
+  - intros [H1 H2] b' d' Hn. rewrite nth_set_tbl in Hn by exact Hb.
+    destruct (b' =? b) eqn:Eb.
+    + apply Nat.eqb_eq in Eb. injection Hn as <-. subst b'. exact H2.
+    + now apply H1.
+Qed.
+
+Lemma disj_var_sem d b :
+  0 < d -> (vmodels m (disj_var_with atk exp_var d b) = true <-> disj_sem atk m d b).
+Proof. intros Hd. apply (disj_var_with_spec m atk exp_var d b exp_var_pos Hd). Qed.
+
+Lemma create_sem s b (XS XC : Prop) :
+  Inv s -> b < n -> Sem s XS XC -> Sem (create_disj_for atk s b) XS XC.
+Proof.
+  intros HI Hb. unfold create_disj_for.
+  destruct (nth b (tbl s) None) as [d0|] eqn:E; [trivial|].
+  assert (Hd : 0 < next_free s) by (pose proof (inv_start s HI); lia).
+  assert (Hbl : b < length (tbl s)) by (rewrite (inv_len s HI); exact Hb).
+  unfold Sem. cbn [tbl out]. intros [HS HC]. split.
+  - intros Hm. apply vmodels_app_iff in Hm. destruct Hm as [Hm1 Hm2].
+    destruct (HS Hm1) as [Hdm HX]. split; [|exact HX].
+    apply (dmean_set _ _ _ Hbl E). split; [exact Hdm|]. now apply disj_var_sem.
+  - intros [Hdm HX]. apply (dmean_set _ _ _ Hbl E) in Hdm. destruct Hdm as [Hdm Hds].
+    apply vmodels_app_iff. split; [apply HC; now split|]. now apply disj_var_sem.
+Qed.
+
+Lemma create_fold l : forall s,
+  (forall b, In b l -> b < n) -> Inv s ->
+  Inv (fold_left (create_disj_for atk) l s) /\
+  (forall b' d, nth b' (tbl s) None = Some d ->
+                nth b' (tbl (fold_left (create_disj_for atk) l s)) None = Some d) /\
+  (forall b, In b l -> exists d, nth b (tbl (fold_left (create_disj_for atk) l s)) None = Some d) /\
+  (forall XS XC : Prop, Sem s XS XC -> Sem (fold_left (create_disj_for atk) l s) XS XC).
+Proof.
+  induction l as [|b l IH]; intros s Hl HI; cbn [fold_left].
+  - split; [exact HI|]. split; [auto|]. split; [intros b []|auto].
+  - assert (Hb : b < n) by (apply Hl; now left).
+    destruct (IH (create_disj_for atk s b)) as (I1 & M1 & H1 & S1).
+    + intros b' Hb'. apply Hl. now right.
+    + now apply create_inv.
+    + split; [exact I1|]. split; [|split].
+      * intros b' d Hn. apply M1. now apply create_mono.
+      * intros b' [<-|Hb']; [|now apply H1].
+        destruct (create_has s b HI Hb) as [d Hd]. exists d. now apply M1.
+      * intros XS XC HS. apply S1. now apply create_sem.
+Qed.
+
+(* the aux-style clauses of one argument, read through the table *)
+Lemma aux_co_in t a :
+  (forall b, In b (atk a) -> exists d, nth b t None = Some d /\ 0 < d) ->
+  cnf_in posv (aux_co_arg_with atk exp_var (tbl_get t) a).
+Proof.
+  intros Hsome. unfold aux_co_arg_with. apply cnf_in_app.
+  - apply cnf_in_map. intros b Hb. destruct (Hsome b Hb) as [d [Hd Hpos]].
+    apply cl_in_cons; [apply lit_in_znlit; unfold posv; auto|].
+    apply cl_in_cons; [|apply cl_in_nil]. unfold tbl_get. rewrite Hd.
+    apply lit_in_zlit; unfold posv; auto.
+  - apply cnf_in_cons; [|apply cnf_in_nil].
+    apply cl_in_cons; [apply lit_in_zlit; unfold posv; auto|]. apply cl_in_map.
+    intros b Hb. destruct (Hsome b Hb) as [d [Hd Hpos]]. unfold tbl_get. rewrite Hd.
+    apply lit_in_znlit; unfold posv; auto.
+Qed.
+
+Lemma aux_co_sem t a :
+  (forall b, In b (atk a) -> exists d, nth b t None = Some d /\ 0 < d) ->
+  dmean t ->
+  (vmodels m (aux_co_arg_with atk exp_var (tbl_get t) a) = true <-> co_sem atk m a).
+Proof.
+  intros Hsome Hdm.
+  set (dv := fun b => Nat.max 1 (tbl_get t b)).
+  assert (Hdv : forall b, In b (atk a) -> tbl_get t b = dv b).
+  { intros b Hb. destruct (Hsome b Hb) as [d [Hd Hpos]]. unfold dv, tbl_get. rewrite Hd. lia. }
+  assert (Heq : aux_co_arg_with atk exp_var (tbl_get t) a = aux_co_arg_with atk exp_var dv a).
+  { unfold aux_co_arg_with.
+    rewrite (map_ext_in (fun b => [znlit (exp_var a); zlit (tbl_get t b)])
+                        (fun b => [znlit (exp_var a); zlit (dv b)]) (atk a))
+      by (intros b Hb; now rewrite (Hdv b Hb)).
+    rewrite (map_ext_in (fun b => znlit (tbl_get t b)) (fun b => znlit (dv b)) (atk a))
+      by (intros b Hb; now rewrite (Hdv b Hb)).
+    reflexivity. }
+  assert (Hds : forall b, In b (atk a) -> disj_sem atk m (dv b) b).
+  { intros b Hb. rewrite <- (Hdv b Hb). destruct (Hsome b Hb) as [d [Hd _]].
+    unfold tbl_get. rewrite Hd. now apply Hdm. }
+  rewrite Heq.
+  rewrite (aux_co_arg_with_spec m atk exp_var dv a exp_var_pos) by (intros x; unfold dv; lia).
+  clear Heq Hdv Hsome Hdm. unfold co_sem, cf_sem. split.
+  - intros [H1 H2]. split; [|split].
+    + intros b Hb Ha Hmb. destruct (Hds b Hb) as (D1 & _ & _). apply D1; [exact Hmb|now apply H1].
+    + intros b Hb Ha. destruct (Hds b Hb) as (_ & _ & D3). apply D3. now apply H1.
+    + intros Hall. destruct H2 as [H2|[b [Hb Hf]]]; [exact H2|]. exfalso.
+      destruct (Hds b Hb) as (_ & D2 & _). destruct (Hall b Hb) as [c [Hc Hmc]].
+      rewrite (D2 c Hc Hmc) in Hf. discriminate.
+  - intros (C1 & C2 & C3). split.
+    + intros b Hb Ha. destruct (C2 b Hb Ha) as [c [Hc Hmc]].
+      destruct (Hds b Hb) as (_ & D2 & _). exact (D2 c Hc Hmc).
+    + destruct (forallb (fun b => m (dv b)) (atk a)) eqn:Eall.
+      * left. rewrite forallb_forall in Eall. apply C3. intros b Hb.
+        destruct (Hds b Hb) as (_ & _ & D3). apply D3. now apply Eall.
+      * right. apply forallb_false_exists in Eall. exact Eall.
+Qed.
+
+(* ----- one argument of the hybrid encoder ----- *)
+Definition hyb_cond (a : nat) : bool :=
+  match atk a with
+  | [] => false
+  | _ => negb (existsb is_nil (defender_sets atk a)) &&
+         negb (capped_product thr 1 (defender_sets atk a) <? thr)
+  end.
+
+Lemma hyb_arg_eq s a :
+  hyb_arg atk thr s a =
+  if hyb_cond a
+  then {| tbl := tbl (fold_left (create_disj_for atk) (atk a) s);
+          next_free := next_free (fold_left (create_disj_for atk) (atk a) s);
+          out := out (fold_left (create_disj_for atk) (atk a) s)
+                 ++ aux_co_arg_with atk exp_var
+                      (tbl_get (tbl (fold_left (create_disj_for atk) (atk a) s))) a |}
+  else {| tbl := tbl s; next_free := next_free s; out := out s ++ exp_co_arg atk a |}.
+Proof.
+  unfold hyb_arg, hyb_cond, exp_co_arg, defender_sets.
+  destruct (atk a) as [|b0 bs] eqn:Ea; cbn [map]; [reflexivity|].
+  destruct (existsb is_nil (atk b0 :: map atk bs)); cbn [negb andb]; [reflexivity|].
+  destruct (capped_product thr 1 (atk b0 :: map atk bs) <? thr); cbn [negb]; reflexivity.
+Qed.
+
+Lemma hyb_arg_step s a :
+  Inv s -> a < n ->
+  Inv (hyb_arg atk thr s a) /\
+  (forall XS XC : Prop, Sem s XS XC ->
+     Sem (hyb_arg atk thr s a) (XS /\ co_sem atk m a) (XC /\ co_sem atk m a)).
+Proof.
+  intros HI Ha. rewrite hyb_arg_eq. destruct (hyb_cond a).
+  - destruct (create_fold (atk a) s (Hatk a) HI) as (I1 & _ & H1 & S1).
+    set (s' := fold_left (create_disj_for atk) (atk a) s) in *.
+    assert (Hsome : forall b, In b (atk a) -> exists d, nth b (tbl s') None = Some d /\ 0 < d).
+    { intros b Hb. destruct (H1 b Hb) as [d Hd]. exists d. split; [exact Hd|].
+      pose proof (inv_rng s' I1 b d Hd). pose proof (inv_start s' I1). lia. }
+    split.
+    + destruct I1 as [Hlen Hst Hrng Hinj Hlits]. constructor; cbn [tbl next_free out]; auto.
+      apply cnf_in_app; [exact Hlits|]. now apply aux_co_in.
+    + intros XS XC HS. apply S1 in HS. destruct HS as [HS HC]. unfold Sem. cbn [tbl out]. split.
+      * intros Hm. apply vmodels_app_iff in Hm. destruct Hm as [Hm1 Hm2].
+        destruct (HS Hm1) as [Hdm HX]. split; [exact Hdm|]. split; [exact HX|].
+        now apply (aux_co_sem (tbl s') a Hsome Hdm).
+      * intros [Hdm [HX Hco]]. apply vmodels_app_iff. split; [apply HC; now split|].
+        now apply (aux_co_sem (tbl s') a Hsome Hdm).
+  - split.
+    + destruct HI as [Hlen Hst Hrng Hinj Hlits]. constructor; cbn [tbl next_free out]; auto.
+      apply cnf_in_app; [exact Hlits|].
+      apply (exp_co_arg_in n atk posv Hatk); [intros x _; unfold posv; auto|exact Ha].
+    + intros XS XC [HS HC]. unfold Sem. cbn [tbl out]. split.
+      * intros Hm. apply vmodels_app_iff in Hm. destruct Hm as [Hm1 Hm2].
+        destruct (HS Hm1) as [Hdm HX]. split; [exact Hdm|]. split; [exact HX|].
+        now apply exp_co_arg_spec.
+      * intros [Hdm [HX Hco]]. apply vmodels_app_iff. split; [apply HC; now split|].
+        now apply exp_co_arg_spec.
+Qed.
+
+Lemma hyb_range_step s a :
+  Inv s -> a < n ->
+  Inv (hyb_range_arg n atk s a) /\
+  (forall XS XC : Prop, Sem s XS XC ->
+     Sem (hyb_range_arg n atk s a) (XS /\ weak_range n atk m a) (XC /\ full_range n atk m a)).
+Proof.
+  intros HI Ha. unfold hyb_range_arg. destruct (nth a (tbl s) None) as [d|] eqn:E.
+  - assert (Hd : 0 < d).
+    { pose proof (inv_rng s HI a d E). pose proof (inv_start s HI). lia. }
+    split.
+    + destruct HI as [Hlen Hst Hrng Hinj Hlits]. constructor; cbn [tbl next_free out]; auto.
+      apply cnf_in_app; [exact Hlits|].
+      assert (Lx : lit_in posv (zlit (exp_var a))) by (apply lit_in_zlit; unfold posv; auto).
+      assert (Lnx : lit_in posv (znlit (exp_var a))) by (apply lit_in_znlit; unfold posv; auto).
+      assert (Lr : lit_in posv (zlit (exp_range n a))) by (apply lit_in_zlit; unfold posv; auto).
+      assert (Lnr : lit_in posv (znlit (exp_range n a))) by (apply lit_in_znlit; unfold posv; auto).
+      assert (Ld : lit_in posv (zlit d)) by (apply lit_in_zlit; unfold posv; auto).
+      assert (Lnd : lit_in posv (znlit d)) by (apply lit_in_znlit; unfold posv; auto).
+      apply cnf_in_cons; [|apply cnf_in_cons; [|apply cnf_in_cons; [|apply cnf_in_nil]]].
+      * apply cl_in_cons; [exact Lnx|]. apply cl_in_cons; [exact Lr|apply cl_in_nil].
+      * apply cl_in_cons; [exact Lnd|]. apply cl_in_cons; [exact Lr|apply cl_in_nil].
+      * apply cl_in_cons; [exact Lnr|]. apply cl_in_cons; [exact Lx|].
+        apply cl_in_cons; [exact Ld|apply cl_in_nil].
+    + intros XS XC [HS HC]. unfold Sem. cbn [tbl out]. split.
+      * intros Hm. apply vmodels_app_iff in Hm. destruct Hm as [Hm1 Hm2].
+        destruct (HS Hm1) as [Hdm HX]. split; [exact Hdm|]. split; [exact HX|].
+        apply (range3_spec m (exp_var a) d (exp_range n a)) in Hm2; auto.
+        destruct (Hdm a d E) as (_ & _ & D3). split.
+        -- intros Hma. apply Hm2. now left.
+        -- intros Hr. apply Hm2 in Hr. destruct Hr as [Hr|Hr]; [now left|right; now apply D3].
+      * intros [Hdm [HX Hfr]]. apply vmodels_app_iff. split; [apply HC; now split|].
+        apply (range3_spec m (exp_var a) d (exp_range n a)); auto.
+        destruct (Hdm a d E) as (_ & D2 & D3). unfold full_range in Hfr. rewrite Hfr. split.
+        -- intros [Hma|[c [Hc Hmc]]]; [now left|right]. exact (D2 c Hc Hmc).
+        -- intros [Hma|Hmd]; [now left|right; now apply D3].
+  - split.
+    + destruct HI as [Hlen Hst Hrng Hinj Hlits]. constructor; cbn [tbl next_free out]; auto.
+      apply cnf_in_app; [exact Hlits|].
+      apply (exp_range_arg_in n atk posv Hatk); [intros x _; unfold posv; auto|exact Ha|unfold posv; auto].
+    + intros XS XC [HS HC]. unfold Sem. cbn [tbl out]. split.
+      * intros Hm. apply vmodels_app_iff in Hm. destruct Hm as [Hm1 Hm2].
+        destruct (HS Hm1) as [Hdm HX]. split; [exact Hdm|]. split; [exact HX|].
+        now apply exp_range_arg_spec.
+      * intros [Hdm [HX Hfr]]. apply vmodels_app_iff. split; [apply HC; now split|].
+        apply exp_range_arg_spec. now apply full_weak.
+Qed.
+
+(* ----- the whole run ----- *)
+Variable range : bool.
+
+Definition hstep (s : hstate) (a : nat) : hstate :=
+  let s1 := hyb_arg atk thr s a in if range then hyb_range_arg n atk s1 a else s1.
+Definition hinit : hstate := {| tbl := repeat None n; next_free := start; out := [] |}.
+Definition XSk (k : nat) : Prop :=
+  forall a, a < k -> co_sem atk m a /\ (range = true -> weak_range n atk m a).
+Definition XCk (k : nat) : Prop :=
+  forall a, a < k -> co_sem atk m a /\ (range = true -> full_range n atk m a).
+
+Lemma hstep_step s a :
+  Inv s -> a < n ->
+  Inv (hstep s a) /\
+  (forall XS XC : Prop, Sem s XS XC ->
+     Sem (hstep s a) (XS /\ co_sem atk m a /\ (range = true -> weak_range n atk m a))
+                     (XC /\ co_sem atk m a /\ (range = true -> full_range n atk m a))).
+Proof.
+  intros HI Ha. unfold hstep. destruct (hyb_arg_step s a HI Ha) as [I1 S1].
+  destruct range.
+  - destruct (hyb_range_step (hyb_arg atk thr s a) a I1 Ha) as [I2 S2].
+    split; [exact I2|]. intros XS XC HS. apply S1 in HS. apply S2 in HS.
+    apply (Sem_weaken _ _ _ _ _ HS); tauto.
+  - split; [exact I1|]. intros XS XC HS. apply S1 in HS.
+    apply (Sem_weaken _ _ _ _ _ HS); [|tauto]. intros [HX Hco]. split; [exact HX|].
+    split; [exact Hco|discriminate].
+Qed.
+
+Lemma hyb_prefix k :
+  1 <= start -> k <= n ->
+  Inv (fold_left hstep (seq 0 k) hinit) /\ Sem (fold_left hstep (seq 0 k) hinit) (XSk k) (XCk k).
+Proof.
+  intros Hst. induction k as [|k IH]; intros Hk.
+  - cbn [seq fold_left]. split.
+    + constructor; cbn [hinit tbl next_free out].
+      * apply repeat_length.
+      * lia.
+      * intros b d H. rewrite nth_repeat in H. discriminate.
+      * intros b b' d H. rewrite nth_repeat in H. discriminate.
+      * apply cnf_in_nil.
+    + split.
+      * intros _. split.
+        -- intros b d H. cbn [hinit tbl] in H. rewrite nth_repeat in H. discriminate.
+        -- intros a Ha. lia.
+      * intros _. reflexivity.
+  - rewrite seq_S, fold_left_app. cbn [fold_left Nat.add].
+    destruct IH as [HI HS]; [lia|].
+    destruct (hstep_step (fold_left hstep (seq 0 k) hinit) k HI) as [I1 S1]; [lia|].
+    split; [exact I1|]. apply S1 in HS. apply (Sem_weaken _ _ _ _ _ HS).
+    + intros (HX & Hco & Hr) a Ha. destruct (Nat.eq_dec a k) as [->|Hne]; [now split|].
+      apply HX. lia.
+    + intros HX. split; [intros a Ha; apply HX; lia|]. apply HX. lia.
+Qed.
+
+End Hyb.
+
+Definition hstart (n : nat) (range : bool) : nat := if range then 1 + 2 * n else 1 + n.
+
+Lemma hyb_run_eq n atk thr range :
+  hyb_run n atk thr range =
+  fold_left (hstep n atk thr range) (seq 0 n) (hinit n (hstart n range)).
+Proof. reflexivity. Qed.
+
+Lemma hyb_final n atk thr range m :
+  (forall a b, In b (atk a) -> b < n) ->
+  Inv n (hstart n range) (hyb_run n atk thr range) /\
+  Sem atk m (hyb_run n atk thr range) (XSk n atk m range n) (XCk n atk m range n).
+Proof.
+  intros Hatk. rewrite hyb_run_eq.
+  apply hyb_prefix; [exact Hatk|unfold hstart; destruct range; lia|lia].
+Qed.
+
+(* the witness valuation gives every created disjunction variable its meaning *)
+Lemma wit_dmean F n range S s :
+  compact_af F n -> cfs F S -> Inv n (hstart n range) s ->
+  dmean (attackers F) (wit F n range (tbl s) S) (tbl s).
+Proof.
+  intros HF [Hincl Hcf] HI b d Hb.
+  set (m := wit F n range (tbl s) S).
+  assert (Hmd : m d = attacked_byb F S b).
+  { apply wit_disj; [apply (inv_len _ _ _ HI)| |apply (inv_inj _ _ _ HI)|exact Hb].
+    intros b' d' H'. pose proof (inv_rng _ _ _ HI b' d' H') as Hr.
+    unfold hstart in Hr. destruct range; lia. }
+  assert (Hm : forall c, c < n -> (m (exp_var c) = true <-> In c S)).
+  { intros c Hc. now apply wit_Hm. }
+  assert (Hbn : b < n).
+  { destruct (le_lt_dec n b) as [Hge|Hlt]; [|exact Hlt].
+    rewrite nth_overflow in Hb by (rewrite (inv_len _ _ _ HI); lia). discriminate. }
+  unfold disj_sem. rewrite Hmd. split; [|split].
+  - intros Hmb Hatt. apply attacked_byb_spec in Hatt. destruct Hatt as [c [Hc Hcb]].
+    apply (Hcf c b); [exact Hc|now apply Hm|exact Hcb].
+  - intros c Hc Hmc. apply attacked_byb_spec. exists c. split; [|now apply in_attackers].
+    apply Hm; [exact (attackers_lt F n HF b c Hc)|exact Hmc].
+  - intros Hatt. apply attacked_byb_spec in Hatt.
+    apply (attacked_m_iff F n HF m S Hm Hincl). exact Hatt.
+Qed.
+
+(* ------------------------------------------------------------------ *)
+(** * ExpCf *)
+
+Lemma expcf_sound thr F n : compact_af F n -> enc_sound ExpCf thr F n.
+Proof.
+  intros HF C m HC Hm. rewrite (enc_clauses_compact ExpCf thr false F n HF) in HC.
+  cbn [encode option_map snd] in HC. injection HC as <-. cbn [enc_base basep].
+  rewrite vmodels_over_args in Hm.
+  apply (sound_cf F n HF); [now left|]. intros a Ha. apply exp_cf_arg_spec. now apply Hm.
+Qed.
+
+Lemma expcf_range_sound thr F n : compact_af F n -> enc_range_sound ExpCf thr F n.
+Proof.
+  intros HF C m HC Hm. rewrite (enc_clauses_compact ExpCf thr true F n HF) in HC.
+  cbn [encode option_map snd] in HC. injection HC as <-.
+  rewrite vmodels_over_args in Hm.
+  assert (H : forall a, a < n -> cf_sem (attackers F) m a /\ weak_range n (attackers F) m a).
+  { intros a Ha. specialize (Hm a Ha). apply vmodels_app_iff in Hm. destruct Hm as [H1 H2].
+    split; [now apply exp_cf_arg_spec|now apply exp_range_arg_spec]. }
+  split.
+  - cbn [enc_base basep]. apply (sound_cf F n HF); [now left|]. intros a Ha. apply (H a Ha).
+  - intros i Hi Hr. apply (sound_range F n HF ExpCf m i); [now left|exact Hi|apply (H i Hi)|exact Hr].
+Qed.
+
+Lemma expcf_complete thr F n : compact_af F n -> enc_complete ExpCf thr F n.
+Proof.
+  intros HF C S HC HS. rewrite (enc_clauses_compact ExpCf thr false F n HF) in HC.
+  cbn [encode option_map snd] in HC. injection HC as <-.
+  cbn [enc_base basep] in HS. destruct HS as [Hincl Hcf].
+  exists (wit F n false [] S). split.
+  - apply vmodels_over_args. intros a Ha. apply exp_cf_arg_spec.
+    exact (compl_cf F n HF _ S (wit_Hm F n false [] S) a Hcf Ha).
+  - intros a Ha. exact (wit_Hm F n false [] S a Ha).
+Qed.
+
+Lemma expcf_range_complete thr F n : compact_af F n -> enc_range_complete ExpCf thr F n.
+Proof.
+  intros HF C S HC HS. rewrite (enc_clauses_compact ExpCf thr true F n HF) in HC.
+  cbn [encode option_map snd] in HC. injection HC as <-.
+  cbn [enc_base basep] in HS. destruct HS as [Hincl Hcf].
+  exists (wit F n true [] S). split; [|split].
+  - apply vmodels_over_args. intros a Ha. apply vmodels_app_iff. split.
+    + apply exp_cf_arg_spec. exact (compl_cf F n HF _ S (wit_Hm F n true [] S) a Hcf Ha).
+    + apply exp_range_arg_spec. apply full_weak.
+      apply (compl_range F n HF _ S (wit_Hm F n true [] S) Hincl a Ha).
+      exact (wit_range_iff F n [] S a Ha).
+  - intros a Ha. exact (wit_Hm F n true [] S a Ha).
+  - intros i Hi. exact (wit_range_iff F n [] S i Hi).
+Qed.
+
+(* ------------------------------------------------------------------ *)
+(** * ExpCo *)
+
+Lemma expco_sound thr F n : compact_af F n -> enc_sound ExpCo thr F n.
+Proof.
+  intros HF C m HC Hm. rewrite (enc_clauses_compact ExpCo thr false F n HF) in HC.
+  cbn [encode option_map snd] in HC. injection HC as <-. cbn [enc_base basep].
+  rewrite vmodels_over_args in Hm.
+  apply (sound_co F n HF); [right; now left|]. intros a Ha. apply exp_co_arg_spec. now apply Hm.
+Qed.
+
+Lemma expco_range_sound thr F n : compact_af F n -> enc_range_sound ExpCo thr F n.
+Proof.
+  intros HF C m HC Hm. rewrite (enc_clauses_compact ExpCo thr true F n HF) in HC.
+  cbn [encode option_map snd] in HC. injection HC as <-.
+  rewrite vmodels_over_args in Hm.
+  assert (H : forall a, a < n -> co_sem (attackers F) m a /\ weak_range n (attackers F) m a).
+  { intros a Ha. specialize (Hm a Ha). apply vmodels_app_iff in Hm. destruct Hm as [H1 H2].
+    split; [now apply exp_co_arg_spec|now apply exp_range_arg_spec]. }
+  split.
+  - cbn [enc_base basep]. apply (sound_co F n HF); [right; now left|]. intros a Ha. apply (H a Ha).
+  - intros i Hi Hr.
+    apply (sound_range F n HF ExpCo m i); [right; now left|exact Hi|apply (H i Hi)|exact Hr].
+Qed.
+
+Lemma co_incl F S : co F S -> incl S (args F).
+Proof. intros [[H _] _]. exact H. Qed.
+
+Lemma co_cfs F S : co F S -> cfs F S.
+Proof. intros [[H1 [H2 _]] _]. now split. Qed.
+
+Lemma expco_complete thr F n : compact_af F n -> enc_complete ExpCo thr F n.
+Proof.
+  intros HF C S HC HS. rewrite (enc_clauses_compact ExpCo thr false F n HF) in HC.
+  cbn [encode option_map snd] in HC. injection HC as <-.
+  cbn [enc_base basep] in HS. pose proof (co_incl F S HS) as Hincl.
+  exists (wit F n false [] S). split.
+  - apply vmodels_over_args. intros a Ha. apply exp_co_arg_spec.
+    exact (compl_co F n HF _ S (wit_Hm F n false [] S) Hincl a HS Ha).
+  - intros a Ha. exact (wit_Hm F n false [] S a Ha).
+Qed.
+
+Lemma expco_range_complete thr F n : compact_af F n -> enc_range_complete ExpCo thr F n.
+Proof.
+  intros HF C S HC HS. rewrite (enc_clauses_compact ExpCo thr true F n HF) in HC.
+  cbn [encode option_map snd] in HC. injection HC as <-.
+  cbn [enc_base basep] in HS. pose proof (co_incl F S HS) as Hincl.
+  exists (wit F n true [] S). split; [|split].
+  - apply vmodels_over_args. intros a Ha. apply vmodels_app_iff. split.
+    + apply exp_co_arg_spec. exact (compl_co F n HF _ S (wit_Hm F n true [] S) Hincl a HS Ha).
+    + apply exp_range_arg_spec. apply full_weak.
+      apply (compl_range F n HF _ S (wit_Hm F n true [] S) Hincl a Ha).
+      exact (wit_range_iff F n [] S a Ha).
+  - intros a Ha. exact (wit_Hm F n true [] S a Ha).
+  - intros i Hi. exact (wit_range_iff F n [] S i Hi).
+Qed.
+
+(* ------------------------------------------------------------------ *)
+(** * HybCo *)
+
+Lemma hybco_sound thr F n : compact_af F n -> enc_sound HybCo thr F n.
+Proof.
+  intros HF C m HC Hm. rewrite (enc_clauses_compact HybCo thr false F n HF) in HC.
+  cbn [encode option_map snd] in HC. injection HC as <-. cbn [enc_base basep].
+  destruct (hyb_final n (attackers F) thr false m (attackers_lt F n HF)) as [_ [HS _]].
+  destruct (HS Hm) as [_ HX].
+  apply (sound_co F n HF); [right; now right|]. intros a Ha. apply (HX a Ha).
+Qed.
+
+Lemma hybco_range_sound thr F n : compact_af F n -> enc_range_sound HybCo thr F n.
+Proof.
+  intros HF C m HC Hm. rewrite (enc_clauses_compact HybCo thr true F n HF) in HC.
+  cbn [encode option_map snd] in HC. injection HC as <-.
+  destruct (hyb_final n (attackers F) thr true m (attackers_lt F n HF)) as [_ [HS _]].
+  destruct (HS Hm) as [_ HX]. split.
+  - cbn [enc_base basep]. apply (sound_co F n HF); [right; now right|].
+    intros a Ha. apply (HX a Ha).
+  - intros i Hi Hr.
+    apply (sound_range F n HF HybCo m i); [right; now right|exact Hi| |exact Hr].
+    apply (HX i Hi). reflexivity.
+Qed.
+
+Lemma hybco_complete thr F n : compact_af F n -> enc_complete HybCo thr F n.
+Proof.
+  intros HF C S HC HS. rewrite (enc_clauses_compact HybCo thr false F n HF) in HC.
+  cbn [encode option_map snd] in HC. injection HC as <-.
+  cbn [enc_base basep] in HS. pose proof (co_incl F S HS) as Hincl.
+  set (s := hyb_run n (attackers F) thr false).
+  set (m := wit F n false (tbl s) S).
+  destruct (hyb_final n (attackers F) thr false m (attackers_lt F n HF)) as [HI [_ HCm]].
+  fold s in HI, HCm.
+  assert (Hm : forall c, c < n -> (m (exp_var c) = true <-> In c S)).
+  { intros c Hc. now apply wit_Hm. }
+  exists m. split.
+  - apply HCm. split.
+    + apply (wit_dmean F n false S s HF (co_cfs F S HS) HI).
+    + intros a Ha. split; [|discriminate].
+      exact (compl_co F n HF m S Hm Hincl a HS Ha).
+  - intros a Ha. exact (Hm a Ha).
+Qed.
+
+Lemma hybco_range_complete thr F n : compact_af F n -> enc_range_complete HybCo thr F n.
+Proof.
+  intros HF C S HC HS. rewrite (enc_clauses_compact HybCo thr true F n HF) in HC.
+  cbn [encode option_map snd] in HC. injection HC as <-.
+  cbn [enc_base basep] in HS. pose proof (co_incl F S HS) as Hincl.
+  set (s := hyb_run n (attackers F) thr true).
+  set (m := wit F n true (tbl s) S).
+  destruct (hyb_final n (attackers F) thr true m (attackers_lt F n HF)) as [HI [_ HCm]].
+  fold s in HI, HCm.
+  assert (Hm : forall c, c < n -> (m (exp_var c) = true <-> In c S)).
+  { intros c Hc. now apply wit_Hm. }
+  exists m. split; [|split].
+  - apply HCm. split.
+    + apply (wit_dmean F n true S s HF (co_cfs F S HS) HI).
+    + intros a Ha. split.
+      * exact (compl_co F n HF m S Hm Hincl a HS Ha).
+      * intros _. apply (compl_range F n HF m S Hm Hincl a Ha).
+        exact (wit_range_iff F n (tbl s) S a Ha).
+  - intros a Ha. exact (Hm a Ha).
+  - intros i Hi. exact (wit_range_iff F n (tbl s) S i Hi).
+Qed.
+
+(* ------------------------------------------------------------------ *)
+(** * Variable layout *)
+
+Definition exp_vars (n : nat) (range : bool) (v : nat) : Prop :=
+  (exists x, x < n /\ v = exp_var x) \/ (range = true /\ exists x, x < n /\ v = exp_range n x).
+
+Lemma exp_vars_arg n range x : x < n -> exp_vars n range (exp_var x).
+Proof. intros Hx. left. now exists x. Qed.
+
+Lemma exp_vars_range n x : x < n -> exp_vars n true (exp_range n x).
+Proof. intros Hx. right. split; [reflexivity|now exists x]. Qed.
+
+Lemma expcf_lits thr range F n C :
+  compact_af F n -> enc_clauses ExpCf thr range F = Some C -> cnf_in (exp_vars n range) C.
+Proof.
+  intros HF HC. rewrite (enc_clauses_compact ExpCf thr range F n HF) in HC.
+  destruct range; cbn [encode option_map snd] in HC; injection HC as <-;
+    apply cnf_in_over_args; intros a Ha.
+  - apply cnf_in_app.
+    + apply (exp_cf_arg_in n (attackers F) _ (attackers_lt F n HF) (exp_vars_arg n true) a Ha).
+    + apply (exp_range_arg_in n (attackers F) _ (attackers_lt F n HF) (exp_vars_arg n true) a Ha).
+      now apply exp_vars_range.
+  - apply (exp_cf_arg_in n (attackers F) _ (attackers_lt F n HF) (exp_vars_arg n false) a Ha).
+Qed.
+
+Lemma expco_lits thr range F n C :
+  compact_af F n -> enc_clauses ExpCo thr range F = Some C -> cnf_in (exp_vars n range) C.
+Proof.
+  intros HF HC. rewrite (enc_clauses_compact ExpCo thr range F n HF) in HC.
+  destruct range; cbn [encode option_map snd] in HC; injection HC as <-;
+    apply cnf_in_over_args; intros a Ha.
+  - apply cnf_in_app.
+    + apply (exp_co_arg_in n (attackers F) _ (attackers_lt F n HF) (exp_vars_arg n true) a Ha).
+    + apply (exp_range_arg_in n (attackers F) _ (attackers_lt F n HF) (exp_vars_arg n true) a Ha).
+      now apply exp_vars_range.
+  - apply (exp_co_arg_in n (attackers F) _ (attackers_lt F n HF) (exp_vars_arg n false) a Ha).
+Qed.
+
+Lemma hybco_lits thr range F n C :
+  compact_af F n -> enc_clauses HybCo thr range F = Some C -> cnf_in posv C.
+Proof.
+  intros HF HC. rewrite (enc_clauses_compact HybCo thr range F n HF) in HC.
+  assert (HI : forall r, cnf_in posv (out (hyb_run n (attackers F) thr r))).
+  { intros r.
+    destruct (hyb_final n (attackers F) thr r (fun _ => true) (attackers_lt F n HF)) as [HI _].
+    exact (inv_lits _ _ _ HI). }
+  destruct range; cbn [encode option_map snd] in HC; injection HC as <-; apply HI.
+Qed.
+
+Lemma exp_vars_class e n range v :
+  e = ExpCf \/ e = ExpCo -> exp_vars n range v -> var_class e n range v.
+Proof.
+  intros He [H|H]; [left|right; left]; destruct He as [-> | ->]; exact H.
+Qed.
+
+Lemma posv_class n range v : posv v -> var_class HybCo n range v.
+Proof.
+  unfold posv, var_class. intros Hv. cbn [arg_var range_var aux_zone].
+  destruct (le_lt_dec v n) as [Hle|Hgt].
+  - left. exists (v - 1). unfold exp_var. lia.
+  - destruct range.
+    + destruct (le_lt_dec v (2 * n)) as [Hle2|Hgt2].
+      * right. left. split; [reflexivity|]. exists (v - n - 1). unfold exp_range. lia.
+      * right. right. exact Hgt2.
+    + right. right. exact Hgt.
+Qed.
+
+(* ------------------------------------------------------------------ *)
+(** * The theorems for the whole family *)
+
+Lemma exp_sound : forall e thr F n,
+  is_exp_family e -> 1 <= thr -> compact_af F n -> enc_sound e thr F n.
+Proof.
+  intros e thr F n [-> | [-> | ->]] _ HF;
+    [now apply expcf_sound|now apply expco_sound|now apply hybco_sound].
+Qed.
+
+Lemma exp_complete : forall e thr F n,
+  is_exp_family e -> 1 <= thr -> compact_af F n -> enc_complete e thr F n.
+Proof.
+  intros e thr F n [-> | [-> | ->]] _ HF;
+    [now apply expcf_complete|now apply expco_complete|now apply hybco_complete].
+Qed.
+
+Lemma exp_range_sound : forall e thr F n,
+  is_exp_family e -> 1 <= thr -> compact_af F n -> enc_range_sound e thr F n.
+Proof.
+  intros e thr F n [-> | [-> | ->]] _ HF;
+    [now apply expcf_range_sound|now apply expco_range_sound|now apply hybco_range_sound].
+Qed.
+
+Lemma exp_range_complete : forall e thr F n,
+  is_exp_family e -> 1 <= thr -> compact_af F n -> enc_range_complete e thr F n.
+Proof.
+  intros e thr F n [-> | [-> | ->]] _ HF;
+    [now apply expcf_range_complete|now apply expco_range_complete|now apply hybco_range_complete].
+Qed.
+
+Lemma exp_layout : forall e thr range F n,
+  is_exp_family e -> 1 <= thr -> compact_af F n -> enc_layout e thr range F n.
+Proof.
+  intros e thr range F n He _ HF. unfold enc_layout.
+  split; [|split; [|split; [|split; [|split; [|split]]]]].
+  - intros C HC c l Hc Hl. destruct He as [-> | [-> | ->]].
+    + destruct (expcf_lits thr range F n C HF HC c Hc l Hl) as [H0 HP].
+      split; [exact H0|]. apply exp_vars_class; [now left|exact HP].
+    + destruct (expco_lits thr range F n C HF HC c Hc l Hl) as [H0 HP].
+      split; [exact H0|]. apply exp_vars_class; [now right|exact HP].
+    + destruct (hybco_lits thr range F n C HF HC c Hc l Hl) as [H0 HP].
+      split; [exact H0|]. now apply posv_class.
+  - destruct He as [-> | [-> | ->]]; cbn [arg_var]; unfold exp_var; intros a b H; lia.
+  - destruct He as [-> | [-> | ->]]; cbn [range_var]; unfold exp_range; intros a b H; lia.
+  - destruct He as [-> | [-> | ->]]; cbn [arg_var]; unfold exp_var; intros a; lia.
+  - destruct He as [-> | [-> | ->]]; cbn [arg_var range_var]; unfold exp_var, exp_range;
+      intros a b Ha Hb; lia.
+  - destruct He as [-> | [-> | ->]]; cbn [arg_var aux_zone]; unfold exp_var; intros a Ha;
+      try tauto. destruct range; lia.
+  - destruct He as [-> | [-> | ->]]; cbn [range_var aux_zone]; unfold exp_range; intros a Ha Hr;
+      try tauto. subst range. lia.
+Qed.
+
+Lemma exp_a2e : forall e n, is_exp_family e -> a2e_ok e n.
+Proof.
+  intros e n He. apply a2e_generic.
+  - intros v a Hv.
+    destruct He as [-> | [-> | ->]]; cbn [arg_of_var arg_var]; cbv zeta; unfold exp_var;
+      (destruct (v - 1 <? n) eqn:E; [apply Nat.ltb_lt in E|apply Nat.ltb_ge in E];
+       split; intros H;
+       [injection H as <-; lia|destruct H as [H1 H2]; f_equal; lia|discriminate|lia]).
+  - intros a b Hab. destruct He as [-> | [-> | ->]]; cbn [arg_var]; unfold exp_var; lia.
+Qed.
+
+Print Assumptions exp_sound.
+Print Assumptions exp_complete.
+Print Assumptions exp_range_sound.
+Print Assumptions exp_range_complete.
+Print Assumptions exp_layout.
+Print Assumptions exp_a2e.
